@@ -158,6 +158,7 @@ class NSKernel(Kernel):
 
 
 class Advance(NSKernel):
+    property_ids = ("C18", "C02")
     name = "NodeScheduler::advance"
     fn_name = "advance"
     title = "advance(): drop fired events (time <= now), re-arm at the earliest remaining"
@@ -219,6 +220,7 @@ class Advance(NSKernel):
 
 
 class Schedule(NSKernel):
+    property_ids = ("C18", "C17")
     name = "NodeScheduler::schedule(DateTime)"
     fn_name = "schedule"
     sig = "void (hgraph::DateTime"
